@@ -359,6 +359,36 @@ func run(c Case, o *vt.Obs) *vt.Failure {
 			vt.Inconclusive("C17 list tables: " + err.Error())
 			return nil
 		}
+		if fmt.Sprint(before) != fmt.Sprint(after) && cfg.role == "follower" {
+			// a follower's table set FOLLOWS its leader's, asynchronously: a table that an earlier accepted call created and removed on the
+			// leader appears and disappears on the follower a little later - possibly right across this refused call.  (Seen in a thorough
+			// run: reported as "refused call had effect" - a false alarm.)  Judge once the follower has caught up: it must then show
+			// exactly the leader's tables, and the refused call's own table name must not be among them.
+			leaderIdx := 2
+			if cfg.tables == "" {
+				leaderIdx = 3
+			}
+			deadline := time.Now().Add(20 * time.Second)
+			for {
+				lt, lerr := tablesOf(procs[leaderIdx], procCfgs[leaderIdx])
+				ft, ferr := tablesOf(p, cfg)
+				if lerr == nil && ferr == nil && fmt.Sprint(lt) == fmt.Sprint(ft) {
+					after, before = ft, ft
+					for _, n := range ft {
+						if n == name {
+							return vt.Failf(prop+"/refused-call-had-effect", i, "%s refused as Unauthenticated on the follower, yet table %q exists afterwards", call.Method, name)
+						}
+					}
+					break
+				}
+				if time.Now().After(deadline) {
+					o.Label("follower-table-set-did-not-settle(skipped)")
+					after = before
+					break
+				}
+				time.Sleep(50 * time.Millisecond)
+			}
+		}
 		if fmt.Sprint(before) != fmt.Sprint(after) {
 			return vt.Failf(prop+"/refused-call-had-effect", i, "%s refused as Unauthenticated changed the table set from %v to %v", call.Method, before, after)
 		}
